@@ -404,6 +404,51 @@ pub fn observe(c: &Case, p: &Params, sink: &mut Sink) -> Observed {
         }
     }
 
+    // a writer with a BYTE budget (ByteBudgetWriter { remaining }): outcome and the bytes the writer holds, compared
+    // with the model (`serializeXmlWriteB (byteBudget n)`); oracle: Err(Io) iff the budget is smaller than the byte
+    // length of the never-failing run, the writer holds exactly its first min(budget, len) bytes — budgets chosen to
+    // end inside multi-byte characters whenever there is one
+    {
+        use crate::common::{byte_budget_verdict, enc_bytes, pick_byte_budgets, ByteBudgetWriter};
+        let wk = w.show(|_| "ok".to_string()).split(' ').next().unwrap().to_string();
+        let rot = sink.stats.get("bytes.xml.cases").copied().unwrap_or(0);
+        sink.stat("bytes.xml.cases");
+        for (n, class) in pick_byte_budgets(&buf, rot) {
+            let mut bw = ByteBudgetWriter::new(n);
+            let r = res_of(guarded(|| xot.serialize_xml_write(p.xml_params(c.vocab), node, &mut bw)));
+            let rs = r.show(|_| "ok".to_string());
+            sink.emit(format!("ser xml_write_bytes {} {} {}", n, p.wire(), tree_wire), format!("{} {}", rs, enc_bytes(&bw.data)));
+            let rk = rs.split(' ').next().unwrap().to_string();
+            sink.stat(&format!("bytes.xml.budget.{}", class));
+            sink.stat(&format!("bytes.xml.outcome.{}", if rk == "ok" || rk == "err:Io" || rk == "panic" { rk.as_str() } else { "serialisation-error" }));
+            if std::str::from_utf8(&bw.data).is_err() {
+                sink.stat("bytes.xml.sink-ends-inside-a-character");
+            }
+            match byte_budget_verdict(&rk, &bw, n, &wk, &buf) {
+                Some(what) => ser_oracle::fail(sink, "C16", "C16:byte-budget-writer-differs", &format!("serialize_xml_write: {}", what), c, p),
+                None => sink.stat("oracle.C16.byte-budget-writer-ok"),
+            }
+        }
+        // Xot::write (default parameters) into the same writer, every fourth case
+        if rot % 4 == 0 {
+            let mut buf0 = Vec::new();
+            let w0 = res_of(guarded(|| xot.write(node, &mut buf0)));
+            let w0k = w0.show(|_| "ok".to_string()).split(' ').next().unwrap().to_string();
+            for (n, class) in pick_byte_budgets(&buf0, rot / 4) {
+                let mut bw = ByteBudgetWriter::new(n);
+                let r = res_of(guarded(|| xot.write(node, &mut bw)));
+                let rs = r.show(|_| "ok".to_string());
+                sink.emit(format!("ser write_bytes {} {}", n, tree_wire), format!("{} {}", rs, enc_bytes(&bw.data)));
+                let rk = rs.split(' ').next().unwrap().to_string();
+                sink.stat(&format!("bytes.write.budget.{}", class));
+                match byte_budget_verdict(&rk, &bw, n, &w0k, &buf0) {
+                    Some(what) => ser_oracle::fail(sink, "C16", "C16:byte-budget-writer-differs", &format!("Xot::write: {}", what), c, &Params::plain()),
+                    None => sink.stat("oracle.C16.byte-budget-writer-ok"),
+                }
+            }
+        }
+    }
+
     for (k, r) in [("outputs", outputs.kind()), ("tokens", tokens.kind()), ("to_string", to_string.kind()), ("xml_string", xml_string.kind())] {
         sink.stat(&format!("resp.{}.{}", k, r));
     }
@@ -746,6 +791,65 @@ fn normalizer_boundary(sink: &mut Sink) {
     sink.emit(vocab.wire(), "ok".to_string());
 }
 
+/// Every byte budget `0 ..= len + 1` for documents whose text, attribute value, comment, processing instruction,
+/// declaration encoding and doctype identifiers consist of 2-, 3- and 4-byte characters: most budgets end inside a
+/// character.  Model: `serializeXmlWriteB (byteBudget n)`; oracle `byte_budget_verdict`.
+fn byte_budget_sweep(sink: &mut Sink) {
+    use crate::common::{byte_budget_verdict, enc_bytes, ByteBudgetWriter};
+    use GValue::*;
+    let e = |n: usize, kids: Vec<GTree>| GTree::new(Element(n), kids);
+    let trees = vec![
+        GTree::new(Document, vec![e(2, vec![GTree::leaf(Text("é€😀".into()))])]),
+        GTree::new(Document, vec![e(2, vec![GTree::leaf(Attribute(8, "ß中\u{10ffff}".into())), e(3, vec![GTree::leaf(Text("\u{a0}<\u{2028}&\u{1f600}".into()))])])]),
+        GTree::new(Document, vec![GTree::leaf(Comment("\u{7ff}\u{800}\u{ffff}\u{10000}".into())), e(2, vec![GTree::leaf(Text("\u{80}\u{d7ff}\u{e000}".into()))])]),
+        // the serialisation itself fails (missing prefix) after some multi-byte bytes
+        GTree::new(Document, vec![e(2, vec![GTree::leaf(Text("中é".into())), e(6, vec![])])]),
+    ];
+    let params = [
+        Params::plain(),
+        Params { indent: Some(vec![]), ..Params::plain() },
+        Params { decl: Some((Some("ü€".into()), Some(true))), doctype: Some((Some("é".into()), "😀".into())), cdata: vec![3], ..Params::plain() },
+    ];
+    for t in &trees {
+        let mut xot = Xot::new();
+        let vocab = ser_vocab(&mut xot);
+        let root = match build(&mut xot, &vocab, t, true) {
+            Ok(n) => n,
+            Err(_) => {
+                sink.stat("gen.build-refused");
+                continue;
+            }
+        };
+        let nodes = nodes_in_order(&xot, root);
+        let tpaths = t.paths();
+        let paths: HashMap<Node, String> = nodes.iter().zip(tpaths.iter()).map(|(n, p)| (*n, path_str(p))).collect();
+        for p in &params {
+            let mut buf = Vec::new();
+            let w = res_of(guarded(|| xot.serialize_xml_write(p.xml_params(&vocab), root, &mut buf)));
+            let wk = w.show(|_| "ok".to_string()).split(' ').next().unwrap().to_string();
+            sink.stat("family.byte-budget-sweep");
+            for n in 0..=buf.len() + 1 {
+                let mut bw = ByteBudgetWriter::new(n);
+                let r = res_of(guarded(|| xot.serialize_xml_write(p.xml_params(&vocab), root, &mut bw)));
+                let rs = r.show(|_| "ok".to_string());
+                sink.emit(format!("ser xml_write_bytes {} {} . {}", n, p.wire(), t.wire()), format!("{} {}", rs, enc_bytes(&bw.data)));
+                let rk = rs.split(' ').next().unwrap().to_string();
+                sink.stat(&format!("bytes.sweep.outcome.{}", if rk == "ok" || rk == "err:Io" || rk == "panic" { rk.as_str() } else { "serialisation-error" }));
+                if std::str::from_utf8(&bw.data).is_err() {
+                    sink.stat("bytes.sweep.sink-ends-inside-a-character");
+                }
+                match byte_budget_verdict(&rk, &bw, n, &wk, &buf) {
+                    Some(what) => {
+                        let case = Case { xot: &mut xot, vocab: &vocab, tree: t, root, start_path: vec![], start: root, paths: paths.clone(), representable: true, domain: Domain::Representable };
+                        ser_oracle::fail(sink, "C16", "C16:byte-budget-writer-differs", &format!("serialize_xml_write: {}", what), &case, p)
+                    }
+                    None => sink.stat("oracle.C16.byte-budget-writer-ok"),
+                }
+            }
+        }
+    }
+}
+
 pub fn run(seed: u64, count: usize, tier: &str, sink: &mut Sink) {
     let mut rng = Rng::new(seed ^ 0x5E71A1);
     {
@@ -754,6 +858,7 @@ pub fn run(seed: u64, count: usize, tier: &str, sink: &mut Sink) {
         sink.emit(vocab.wire(), "ok".to_string());
     }
     corpus(sink);
+    byte_budget_sweep(sink);
     normalizer_boundary(sink);
     if tier == "thorough" {
         exhaustive(sink);
